@@ -443,8 +443,13 @@ def main(argv):
     if tier not in TIERS:
         tier = "quick"
     load_manifest_levels()
-    t0 = time.time()
     os.makedirs(WORK, exist_ok=True)
+    # Checks share state on disk (the regenerated tables under lean/GcArena/Generated, lake's build
+    # directory, the harness target directories, work/): concurrent invocations take turns.
+    import fcntl
+    _lock = open(os.path.join(WORK, ".check.lock"), "w")
+    fcntl.flock(_lock, fcntl.LOCK_EX)
+    t0 = time.time()
 
     if args.replay:
         return do_replay(prop, args.replay)
